@@ -358,6 +358,9 @@ func zzRender(v interface{}) string {
 	}
 	for i, o := range zzOpaque {
 		if reflect.TypeOf(o) == reflect.TypeOf(v) {
+			if reflect.TypeOf(o).Comparable() && o != v {
+				continue // e.g. typed nil pointer vs. non-nil pointer
+			}
 			return fmt.Sprintf("o:%d", i)
 		}
 	}
